@@ -107,8 +107,18 @@ class RealBook:
         """run callbacks until a job is waiting for the executor (or nothing is left)"""
         self.loop.drain(jobs=False, timers=False, limit=100_000)
 
+    def stop(self):
+        """graceful stop: everything queued finishes, then BlobManager.stop(); the SAME objects are started again later"""
+        self.loop.drain(jobs=True, timers=False, limit=400_000)
+        with self.loop:
+            self.bm.stop()
+        self.stopped = True
+
     def start_scan(self):
-        self._boot()
+        if getattr(self, 'stopped', False) and self.loop is not None:
+            self.stopped = False            # restart of the same BlobManager object
+        else:
+            self._boot()
         self.setup_task = self.loop.spawn(self.bm.setup())
         self._run_to_next_job()          # the directory scan is now with the executor
         if not self.setup_task.done() and self.loop.pending_jobs:
@@ -233,6 +243,8 @@ def apply(rb, act):
         rb.external_add(act[1], garbage=rb.rng.random() < 0.3)
     elif name == 'Crash':
         rb.crash()
+    elif name == 'Stop':
+        rb.stop()
     elif name == 'StartScan':
         rb.start_scan()
     elif name == 'StartSync':
@@ -321,6 +333,14 @@ def random_history(ctx, k, rng):
         evs.append({'event': act[0], 'obs': rb.observe()})
     try:
         for _ in range(rng.choice([15, 30, 50])):
+            if phase == 'stopped':
+                # while stopped, files may change behind the daemon's back
+                n = rng.choice(NAMES)
+                if rng.random() < 0.5 and n in set(rb.observe()['disk']):
+                    do(['ExternalRemove', n])
+                do(['StartScan'])
+                phase = 'scan'
+                continue
             if phase == 'down':
                 do(['StartScan'])
                 phase = 'scan'
@@ -361,10 +381,18 @@ def random_history(ctx, k, rng):
                 do(['ExternalRemove', n])
             elif r < 0.86 and n not in disk and n not in filejobs:
                 do(['ExternalAdd', n])
-            elif r < 1.0:
+            elif r < 0.93:
                 do(['Crash'])
                 phase, filejobs, dbq = 'down', set(), 0
+            elif r < 1.0:
+                do(['Stop'])            # graceful: pending work finishes first, the same objects are started again
+                phase, filejobs, dbq = 'stopped', set(), 0
         # finish: (crash,) start, crash, start with nothing in between
+        if phase == 'stopped':
+            do(['StartScan'])
+            do(['StartSync'])
+            do(['StartEnsure'])
+            phase = 'up'
         if phase != 'down':
             do(['Crash'])
         for _ in range(2):
@@ -377,7 +405,41 @@ def random_history(ctx, k, rng):
     return {'ev': evs}
 
 
+def bulk_startup(ctx, nfiles):
+    """many blob files without a finished row at ONE start-up (more than one flush of the start-up pass)"""
+    rb = RealBook(ctx, f'bulk{nfiles}', ctx.rng)
+    try:
+        for i in range(nfiles):
+            h = hashlib.sha384(f'bulk{i}'.encode()).hexdigest()
+            with open(os.path.join(rb.blob_dir, h), 'wb') as f:
+                f.write(b'x')
+        counts = []
+        for _ in range(2):
+            rb.start_scan()
+            rb.start_sync()
+            rb.start_ensure()
+            import sqlite3
+            conn = sqlite3.connect(os.path.join(rb.dir, 'lbrynet.sqlite'))
+            fin = conn.execute("select count(*) from blob where status='finished'").fetchone()[0]
+            conn.close()
+            counts.append({'files': len(os.listdir(rb.blob_dir)), 'finished': fin, 'completed': len(rb.bm.completed_blob_hashes)})
+            rb.crash()
+        return counts
+    finally:
+        rb.close()
+
+
 def leg_c(ctx, traces):
+    for nfiles in ([501, 1203] if ctx.thorough else [601]):
+        c1, c2 = bulk_startup(ctx, nfiles)
+        ctx.count(('bulk', nfiles), nontrivial=True)
+        ctx.leg('C', **{f'bulk_{nfiles}': [c1, c2]})
+        if c1['finished'] != c1['files']:
+            ctx.violation('clause-TFilesAreFinished:bulk', f'{c1["files"]} blob files at one start-up, only {c1["finished"]} recorded as finished',
+                          {'files': nfiles, 'first_start': c1, 'second_start': c2})
+        elif c2['completed'] != c2['files']:
+            ctx.violation('clause-TSecondStartExact:bulk', f'second start-up reports {c2["completed"]} completed blobs for {c2["files"]} files',
+                          {'files': nfiles, 'first_start': c1, 'second_start': c2})
     n = 800 if ctx.thorough else 120
     for k in range(n):
         tr = random_history(ctx, k, ctx.rng)
